@@ -76,6 +76,7 @@ class VLoop(asyncio.SelectorEventLoop):
         sel = self._selector
         orig = sel.select
         self._spins = 0
+        self._calls = 0
         self._t0 = REAL_PERF()
 
         def select(timeout=None):
@@ -84,6 +85,9 @@ class VLoop(asyncio.SelectorEventLoop):
                 return ev
             if timeout is None:
                 raise Quiescent()
+            self._calls += 1
+            if self._calls % 4096 == 0 and REAL_PERF() - self._t0 > CASE_REAL_SECONDS:
+                raise Runaway(f"case exceeded {CASE_REAL_SECONDS}s real time at t={VClock.t}")
             if timeout > 0:
                 VClock.t += timeout
                 self._spins = 0
@@ -91,8 +95,6 @@ class VLoop(asyncio.SelectorEventLoop):
                 self._spins += 1
                 if self._spins > SPIN_LIMIT:
                     raise Runaway(f"no virtual progress for {SPIN_LIMIT} loop iterations at t={VClock.t}")
-                if self._spins % 4096 == 0 and REAL_PERF() - self._t0 > CASE_REAL_SECONDS:
-                    raise Runaway(f"case exceeded {CASE_REAL_SECONDS}s real time at t={VClock.t}")
             return ev
 
         sel.select = select  # type: ignore[method-assign]
